@@ -164,13 +164,13 @@ def plain_responses():
     return {k: plain_apdu(k) for k in (8, 9, 10, 11, 12, 13, 14, 15, 16, 17, 18, 19, 20)}
 
 
-def hls_session(suite=0, cic=0, mic=0, meter_ic=1, challenge_m=CHALLENGE_M, challenge_c=CHALLENGE_C, valid=True, status=0, tail=True):
+def hls_session(suite=0, cic=0, mic=0, meter_ic=1, challenge_m=CHALLENGE_M, challenge_c=CHALLENGE_C, valid=True, status=0, tail=True, auth=5):
     """the four-step HLS-GMAC exchange on a ciphered connection followed by service requests and a release:
        -> (cfg, cst, ops, peer) where ops contains the genuine meter answers"""
     from props.dlms_common import plain_apdu
     ek, ak = keys(suite)
     k = cfg(ek=ek, ak=ak, suite=suite, challenge=challenge_c)
-    c = cst(state=0, cic=cic, mic=mic, auth=5)
+    c = cst(state=0, cic=cic, mic=mic, auth=auth)            # auth: the mechanism the connection was configured with
     peer = Peer(True, suite=suite, ic=meter_ic, ek=ek, ak=ak)
     ops = [[0, aarq_v(CONF_C, 65535, CLIENT_TITLE, 5, challenge_c, True)],
            [1, peer.aare(hls=True, challenge=challenge_m)],
